@@ -102,6 +102,15 @@ CHECKS = {
              "finding (pretty tuple fields lose non-# options), filtered only where the text equals the transcription's.",
         technique="TLA+ spec (DebugBuilder state machines) + TLC, replay of every call sequence on real builders, twin-type probes",
         design="4 (C06)"),
+    "C13": dict(
+        text="TLC model-checks FromStr.tla (the documented rule vs the transcription of the lower-case grouping and guarded "
+             "arms) on every enum of up to 2 (quick) / 3 (thorough) variants from a pool with case-colliding groups and a raw "
+             "identifier x every string up to length 3 / 4 over the names' letters; every state is replayed on the real "
+             "derived FromStr; random longer strings are recorded from the real code and validated by TLC (Trace_FromStr); "
+             "newtypes over six FromStr types are compared with the field type's own parse on a fixed corpus.",
+        note="ASCII names (Unicode case folding beyond the alphabet is excluded, DESIGN 2.4); the error is checked to name the enum.",
+        technique="TLA+ spec (FromStr) + TLC exhaustive enums x strings, replay and trace validation on the real derive",
+        design="4 (C13)"),
 }
 
 NOT_YET = {}
